@@ -5,7 +5,7 @@
        arrive: the step ends in the same state with the same result. *)
 From Coq Require Import List NArith ZArith Arith Bool Lia.
 From RecordUpdate Require Import RecordUpdate.
-From Iodine Require Import Generated.SrcConsts Base DnsName DnsMsg Negotiate LoginGlue Handshake.
+From Iodine Require Import Generated.SrcConsts Base DnsName DnsMsg Negotiate LoginGlue Shell Handshake.
 Import ListNotations.
 Local Open Scope N_scope.
 
@@ -242,25 +242,77 @@ Proof.
   apply Bnd_bind; [apply Bnd_autoprobe_loop | intros m; apply Bnd_ret].
 Qed.
 
+Lemma Bnd_login : Bnd 5 hs_login.
+Proof.
+  unfold hs_login; eapply Bnd_weaken; [|apply Bnd_attempts with (kb := 1); [|apply Bnd_ret]]; [cbn; lia |].
+  unfold login_body. change 1 with (1 + 0); apply Bnd_bind; [apply Bnd_ask | intros r].
+  destruct r as [| |buf]; try apply Bnd_ret.
+  destruct (0 <? length buf)%nat; [|apply Bnd_ret].
+  change 0 with (0 + (0 + 0)); apply Bnd_bind; [apply Bnd_get | intros s].
+  destruct (login_step _ _ _ _) as [cmds more].
+  apply Bnd_bind; [apply Bnd_modify_q; intros ?; cbn; lia | intros _].
+  destruct more; [apply Bnd_ret |].
+  destruct cmds as [|c1 [|c2 [|c3 t]]]; try apply Bnd_ret.
+  destruct (is_lnak_or_badip buf); apply Bnd_ret.
+Qed.
+
+Definition full_bound : N := qtype_queries + 5 + 5 + 3 + 3 * upenc_tests + 5 + 12 + 5 + 5 + 48 + 5.
+
+Lemma Bnd_unit_modify (f : hs -> hs) : (forall s, h_q (f s) = h_q s) -> Bnd 0 (modify f).
+Proof. intros H; apply Bnd_modify_q; intros s; rewrite H; lia. Qed.
+
+Lemma Bnd_full autofrag fragsize : Bnd full_bound (hs_full autofrag fragsize).
+Proof.
+  unfold hs_full, full_bound.
+  eapply Bnd_weaken with (k := 0 + (0 + (qtype_queries + (5 + (5 + (0 + (3 + (0 + (3 * upenc_tests + (5 + (0 + (12 + (0 + (5 + (5 + (48 + 5)))))))))))))))); [lia |].
+  apply Bnd_bind; [apply Bnd_unit_modify; reflexivity | intros _].
+  apply Bnd_bind; [apply Bnd_get | intros s].
+  apply Bnd_bind; [destruct (_ =? _); [apply Bnd_qtype_auto | eapply Bnd_weaken; [|apply Bnd_ret]; lia] | intros r0].
+  destruct (negb _); [eapply Bnd_weaken; [|apply Bnd_ret]; lia |].
+  apply Bnd_bind; [apply Bnd_version | intros r1].
+  destruct (negb _); [eapply Bnd_weaken; [|apply Bnd_ret]; lia |].
+  apply Bnd_bind; [apply Bnd_login | intros r2].
+  destruct r2 as [[|p|p]|]; try (eapply Bnd_weaken; [|apply Bnd_ret]; lia).
+  apply Bnd_bind; [apply Bnd_unit_modify; reflexivity | intros _].
+  apply Bnd_bind; [apply Bnd_downenctest | intros e].
+  apply Bnd_bind; [apply Bnd_unit_modify; reflexivity | intros _].
+  apply Bnd_bind; [apply Bnd_upenc_auto | intros up].
+  apply Bnd_bind; [destruct (assoc _ _ _); [apply Bnd_switch_codec | eapply Bnd_weaken; [|apply Bnd_ret]; lia] | intros _].
+  apply Bnd_bind; [apply Bnd_get | intros s1].
+  apply Bnd_bind.
+  { destruct (_ =? _); [|eapply Bnd_weaken; [|apply Bnd_ret]; lia].
+    eapply Bnd_weaken with (k := 12 + 0); [lia |].
+    apply Bnd_bind; [apply Bnd_downenc_auto | intros d; apply Bnd_unit_modify; reflexivity]. }
+  intros _.
+  apply Bnd_bind; [apply Bnd_get | intros s2].
+  apply Bnd_bind; [destruct (_ =? _); [eapply Bnd_weaken; [|apply Bnd_ret]; lia | apply Bnd_any_reply] | intros _].
+  apply Bnd_bind; [destruct (h_lazy s2); [apply Bnd_try_lazy | eapply Bnd_weaken; [|apply Bnd_ret]; lia] | intros _].
+  apply Bnd_bind; [destruct autofrag; [apply Bnd_autoprobe | eapply Bnd_weaken; [|apply Bnd_ret]; lia] | intros fs].
+  destruct (fs =? 0); [eapply Bnd_weaken; [|apply Bnd_ret]; lia |].
+  eapply Bnd_weaken with (k := 5 + 0); [lia |].
+  apply Bnd_bind; [apply Bnd_any_reply | intros _; apply Bnd_ret].
+Qed.
+
 Definition step_bound (st : stepname) : N :=
   match st with
   | SVersion => 5 | SEdns0 => 3 | SUpenctest _ => 3 | SUpencAuto => 3 * upenc_tests | SDownenctest => 3
   | SDownencAuto => 12 | SQtypetest => 1 | SQtypeAuto => qtype_queries | SSwitchCodec _ => 5 | SSwitchDownenc => 5
   | STryLazy => 5 | SLazyoff => 5 | SAutoprobe => 48 | SSetFragsize => 5
+  | SLogin => 5 | SFull _ _ => full_bound
   end.
 
-Lemma Bnd_then_ret {A} k (m : M A) (f : A -> Z) : Bnd k m -> Bnd k (x <- m ;; ret (f x)).
+Lemma Bnd_then_ret {A B} k (m : M A) (f : A -> B) : Bnd k m -> Bnd k (x <- m ;; ret (f x)).
 Proof. intros H; eapply Bnd_weaken with (k := k + 0); [lia |]; apply Bnd_bind; [exact H | intros; apply Bnd_ret]. Qed.
-Lemma Bnd_then_ret0 k (m : M unit) : Bnd k m -> Bnd k (m ;;; ret 0%Z).
+Lemma Bnd_then_ret0 {B} k (m : M unit) (b : B) : Bnd k m -> Bnd k (m ;;; ret b).
 Proof. intros H; eapply Bnd_weaken with (k := k + 0); [lia |]; apply Bnd_bind; [exact H | intros; apply Bnd_ret]. Qed.
 
 Theorem step_bounded st : Bnd (step_bound st) (run_step st).
 Proof.
   destruct st; cbn [run_step step_bound];
-    first [ apply Bnd_version | apply Bnd_qtype_auto
+    first [ apply Bnd_login | apply Bnd_full
           | apply Bnd_then_ret;
-            first [apply Bnd_downenctest | apply Bnd_upenctest | apply Bnd_upenc_auto | apply Bnd_downenc_auto
-                  | apply Bnd_qtypetest | apply Bnd_autoprobe]
+            first [apply Bnd_version | apply Bnd_qtype_auto | apply Bnd_downenctest | apply Bnd_upenctest | apply Bnd_upenc_auto
+                  | apply Bnd_downenc_auto | apply Bnd_qtypetest | apply Bnd_autoprobe]
           | apply Bnd_then_ret0;
             first [apply Bnd_switch_codec | apply Bnd_any_reply | apply Bnd_try_lazy | apply Bnd_lazyoff] ].
 Qed.
@@ -268,6 +320,7 @@ Qed.
 (* the numbers, on the current source constants *)
 Lemma upenc_tests_val : upenc_tests = 7. Proof. reflexivity. Qed.
 Lemma qtype_queries_val : qtype_queries = 27. Proof. reflexivity. Qed.
+Lemma full_bound_val : full_bound = 141. Proof. reflexivity. Qed.
 
 (* ---- (2) datagrams that can never fit are ignored, wherever they arrive ------------------------------ *)
 
@@ -440,12 +493,125 @@ Qed.
 Lemma Ign_autoprobe : Ign hs_autoprobe.
 Proof. unfold hs_autoprobe; apply Ign_bind; [apply Ign_autoprobe_loop | intros m; apply Ign_ret]. Qed.
 
+Lemma Ign_login : Ign hs_login.
+Proof.
+  unfold hs_login; apply Ign_attempts; [|apply Ign_ret].
+  unfold login_body; apply Ign_bind; [apply Ign_ask; right; reflexivity | intros r].
+  destruct r as [| |buf]; try apply Ign_ret.
+  destruct (0 <? length buf)%nat; [|apply Ign_ret].
+  apply Ign_bind; [apply Ign_get | intros s].
+  destruct (login_step _ _ _ _) as [cmds more].
+  apply Ign_bind; [apply Ign_modify; intros ? ?; cbn; assumption | intros _].
+  destruct more; [apply Ign_ret |].
+  destruct cmds as [|c1 [|c2 [|c3 t]]]; try apply Ign_ret.
+  destruct (is_lnak_or_badip buf); apply Ign_ret.
+Qed.
+
+Lemma Ign_full autofrag fragsize : Ign (hs_full autofrag fragsize).
+Proof.
+  unfold hs_full.
+  apply Ign_bind; [apply Ign_modify; intros ? ?; cbn; assumption | intros _].
+  apply Ign_bind; [apply Ign_get | intros s].
+  apply Ign_bind; [destruct (_ =? _); [apply Ign_qtype_auto | apply Ign_ret] | intros r0].
+  destruct (negb _); [apply Ign_ret |].
+  apply Ign_bind; [apply Ign_version | intros r1].
+  destruct (negb _); [apply Ign_ret |].
+  apply Ign_bind; [apply Ign_login | intros r2].
+  destruct r2 as [[|p|p]|]; try apply Ign_ret.
+  apply Ign_bind; [apply Ign_modify; intros ? ?; cbn; assumption | intros _].
+  apply Ign_bind; [apply Ign_downenctest | intros e].
+  apply Ign_bind; [apply Ign_modify; intros ? ?; cbn; assumption | intros _].
+  apply Ign_bind; [apply Ign_upenc_auto | intros up].
+  apply Ign_bind; [destruct (assoc _ _ _); [apply Ign_switch_codec | apply Ign_ret] | intros _].
+  apply Ign_bind; [apply Ign_get | intros s1].
+  apply Ign_bind.
+  { destruct (_ =? _); [|apply Ign_ret].
+    apply Ign_bind; [apply Ign_downenc_auto | intros d; apply Ign_modify; intros ? ?; cbn; assumption]. }
+  intros _.
+  apply Ign_bind; [apply Ign_get | intros s2].
+  apply Ign_bind; [destruct (_ =? _); [apply Ign_ret | apply Ign_any_reply] | intros _].
+  apply Ign_bind; [destruct (h_lazy s2); [apply Ign_try_lazy | apply Ign_ret] | intros _].
+  apply Ign_bind; [destruct autofrag; [apply Ign_autoprobe | apply Ign_ret] | intros fs].
+  destruct (fs =? 0); [apply Ign_ret |].
+  apply Ign_bind; [apply Ign_any_reply | intros _; apply Ign_ret].
+Qed.
+
 Theorem step_ignores_inert st : Ign (run_step st).
 Proof.
   destruct st; cbn [run_step];
-    first [ apply Ign_version | apply Ign_qtype_auto
+    first [ apply Ign_login | apply Ign_full
           | apply Ign_bind; [| intros ?; apply Ign_ret];
-            first [apply Ign_downenctest | apply Ign_upenctest | apply Ign_upenc_auto | apply Ign_downenc_auto
-                  | apply Ign_qtypetest | apply Ign_autoprobe | apply Ign_switch_codec | apply Ign_any_reply
+            first [apply Ign_version | apply Ign_qtype_auto | apply Ign_downenctest | apply Ign_upenctest | apply Ign_upenc_auto
+                  | apply Ign_downenc_auto | apply Ign_qtypetest | apply Ign_autoprobe | apply Ign_switch_codec | apply Ign_any_reply
                   | apply Ign_try_lazy | apply Ign_lazyoff] ].
 Qed.
+
+(* ---- (3) what one test yields on a path that answers promptly / not at all --------------------------- *)
+(* Negotiate.v treats a test as a function of "the reply" (Some bytes / None).  These lemmas are the
+   sequencing facts behind that reading: when the next event is a fitting, non-empty reply the test is the
+   evaluation of exactly that reply, after one query; when nothing arrives during all its attempts it is
+   the evaluation of None, after three. *)
+
+Definition prompt_reply (s : hs) (c c2 : N) (buflen : nat) (it : item) (buf : list N) : Prop :=
+  exists m d, it = ID m d /\
+    let s1 := send c s in
+    let d' := subst m (h_cid s1) c d in
+    let x := client_extract buflen d' (length d') in
+    fits (h_cid s1) c c2 x = true /\ (0 <= da_rv x)%Z /\
+    buf = firstn (Z.to_nat (da_rv x)) (da_out x) /\ (0 <? length buf)%nat = true.
+
+Lemma ask_prompt s c c2 buflen it buf r :
+  prompt_reply s c c2 buflen it buf -> ask c c2 buflen s (it :: r) = (WRead buf, send c s, r).
+Proof.
+  intros (m & d & -> & Hf & Hrv & -> & _).
+  unfold ask, bind, modify, waitdns; cbn [waitdns_go].
+  change (h_lastc (send c s)) with c.
+  rewrite Hf; cbn [negb].
+  destruct (da_rv _ <? 0)%Z eqn:E; [apply Z.ltb_lt in E; lia | reflexivity].
+Qed.
+
+Lemma ask_timeout s c c2 buflen r : ask c c2 buflen s (IT :: r) = (WTimeout, send c s, r).
+Proof. reflexivity. Qed.
+
+Lemma upenctest_prompt pat s it buf r :
+  prompt_reply s 122 90 cap_full it buf ->
+  hs_upenctest pat s (it :: r) = (upenctest_eval pat (Some buf), send 122 s, r).
+Proof.
+  intros H. unfold hs_upenctest; cbn [attempts]. unfold upenctest_body at 1, bind at 1 2.
+  rewrite (ask_prompt _ _ _ _ _ _ r H).
+  destruct H as (m & d & _ & _ & _ & _ & Hn). rewrite Hn. reflexivity.
+Qed.
+
+Lemma upenctest_silent pat s r :
+  hs_upenctest pat s (IT :: IT :: IT :: r) = (upenctest_eval pat None, send 122 (send 122 (send 122 s)), r).
+Proof. reflexivity. Qed.
+
+Lemma downenctest_prompt s it buf r :
+  prompt_reply s 121 89 cap_full it buf ->
+  hs_downenctest s (it :: r) = (downenctest_eval (Some buf), send 121 s, r).
+Proof.
+  intros H. unfold hs_downenctest; cbn [attempts]. unfold downenctest_body at 1, bind at 1 2.
+  rewrite (ask_prompt _ _ _ _ _ _ r H).
+  destruct H as (m & d & _ & _ & _ & _ & Hn). rewrite Hn. reflexivity.
+Qed.
+
+Lemma downenctest_silent s r :
+  hs_downenctest s (IT :: IT :: IT :: r) = (downenctest_eval None, send 121 (send 121 (send 121 s)), r).
+Proof. reflexivity. Qed.
+
+Definition probe_of (p : probe_res) : bool := match p with PNoAnswer => false | _ => true end.
+
+Lemma probe_prompt proposed s it buf r :
+  prompt_reply s 114 82 cap_term it buf ->
+  probe_of (fragsize_check buf proposed) = true ->
+  hs_probe proposed s (it :: r) = (probe_eval (Some buf) proposed, send 114 s, r).
+Proof.
+  intros H Hp. unfold hs_probe; cbn [attempts]. unfold probe_body at 1, bind at 1 2.
+  rewrite (ask_prompt _ _ _ _ _ _ r H).
+  destruct H as (m & d & _ & _ & _ & _ & Hn). rewrite Hn.
+  unfold probe_eval. destruct (fragsize_check buf proposed); [discriminate Hp | reflexivity..].
+Qed.
+
+Lemma probe_silent proposed s r :
+  hs_probe proposed s (IT :: IT :: IT :: r) = (probe_eval None proposed, send 114 (send 114 (send 114 s)), r).
+Proof. reflexivity. Qed.
